@@ -194,12 +194,18 @@ Definition mobs_eqb (a b : mobs) : bool :=
   | (r1, s1, c1, q1, l1, t1), (r2, s2, c2, q2, l2, t2) =>
     mres_eqb r1 r2 && (s1 =? s2) && optnat_eqb c1 c2 && (q1 =? q2) && list_eqb Bool.eqb l1 l2 && list_eqb sobs_eqb t1 t2
   end.
-Fixpoint mrun_check (k : mcfg) (p : mpool) (h : list (mop * mobs)) : bool :=
+Fixpoint mstep_multi (k : mcfg) (p : mpool) (os : list mop) : mpool * mres :=
+  match os with
+  | [] => (p, MRN)
+  | o :: os' => let (p1, r1) := mstep k p o in let (p2, r2) := mstep_multi k p1 os' in
+                (p2, match r1 with MRN => r2 | _ => r1 end)
+  end.
+Fixpoint mrun_check (k : mcfg) (p : mpool) (h : list (list mop * mobs)) : bool :=
   match h with
   | [] => true
-  | (o, ob) :: h' => let (p', r) := mstep k p o in mobs_eqb (mobserve p' r) ob && mrun_check k p' h'
+  | (os, ob) :: h' => let (p', r) := mstep_multi k p os in mobs_eqb (mobserve p' r) ob && mrun_check k p' h'
   end.
-Definition mx_case := (Z * list (mop * mobs))%type.
+Definition mx_case := (Z * list (list mop * mobs))%type.
 Definition mx_case_ok (sw : mx_switches) (c : mx_case) : bool :=
   match c with (mr, h) => mrun_check (mkMCfg mr sw) minit h end.
 Definition mx_mismatches (sw : mx_switches) (l : list mx_case) : list nat := pool_mismatches_from (mx_case_ok sw) 0 l.
